@@ -55,6 +55,32 @@ pub struct GenOpts {
 
 /// A valid op sequence ending in `Finalize`: interleaves per-file scripts `start, append*, end`,
 /// with `add` and `flush` sprinkled in. Names are distinct.
+/// A valid call sequence with a few REFUSED calls slipped in (error-then-continue: a duplicate name, an unknown
+/// id, an over-long name): a refused call changes nothing (C09), so the archive holds the same files; what
+/// comes after the refusal must behave as if it had not happened.
+pub fn with_refused(rng: &mut Rng, ops: &[Op]) -> Vec<Op> {
+    let mut out: Vec<Op> = vec![];
+    let mut names: Vec<String> = vec![];
+    let n_ins = rng.range(1, 3);
+    let mut slots: Vec<usize> = (0..n_ins).map(|_| rng.below(ops.len() as u64) as usize).collect();
+    slots.sort();
+    for (i, op) in ops.iter().enumerate() {
+        while slots.first() == Some(&i) {
+            slots.remove(0);
+            if matches!(op, Op::Finalize) && names.is_empty() { continue; }
+            match rng.below(4) {
+                0 | 1 if !names.is_empty() => out.push(Op::Start(rng.pick(&names).clone())),
+                2 => out.push(Op::Append { id: 1_000_000 + rng.below(5), size: 3, src: vec![1, 2, 3] }),
+                3 => out.push(Op::Start("n".repeat(65537))),
+                _ => out.push(Op::End(2_000_000)),
+            }
+        }
+        match op { Op::Start(n) => names.push(n.clone()), Op::Add { name, .. } => names.push(name.clone()), _ => {} }
+        out.push(op.clone());
+    }
+    out
+}
+
 pub fn gen_valid_ops(rng: &mut Rng, o: &GenOpts) -> Vec<Op> {
     let nfiles = rng.below(o.max_files as u64 + 1) as usize;
     let mut ops = vec![];
